@@ -103,6 +103,13 @@ def stepAdapter (a : AdpW) : List String → AdpW × String
     match q.toNat? with
     | some n => ({ w := { q := quirksOf n } }, "ok")
     | none => (a, "bad-op")
+  | ["adp.encaddr", host, port] =>
+    match ofHex host, port.toNat? with
+    | some h, some p =>
+      match encodeAddress h p with
+      | .ok b => (a, "ok " ++ hexOut b)
+      | .error e => (a, showErr e)
+    | _, _ => (a, "bad-op")
   | ["adp.server", r] =>
     match boolOf r with
     | some b => ({ w := { a.w with retry := b } }, "ok")
